@@ -6,6 +6,7 @@ import (
 	"encoding/json"
 	"flag"
 	"fmt"
+	"go/types"
 	"golang.org/x/tools/go/ssa"
 	"os"
 	"path/filepath"
@@ -218,16 +219,66 @@ func dumpRefFuncs(repo string) int {
 		fmt.Printf("ERROR %s\n", err)
 		return 2
 	}
-	var out []string
+	fmt.Println("package main\n\n// reffuncs.go: the top-level functions and the struct fields of the reference\n// tree (/repo at the time the rules were confirmed).  A module function not\n// listed here (and not standing in for a listed one under another name, see\n// rename.go) is a helper: its static calls are folded into the callers before\n// analysis.  Regenerate with tools/mkreffuncs.sh after confirming the rules on\n// a new reference tree.\n\nvar refInfo = map[string]refFuncInfo{")
+	var names []string
+	byName := map[string]*ssa.Function{}
 	for _, fn := range p.funcs {
-		if nil == fn.Parent() {
-			out = append(out, fn.String())
+		if nil == fn.Parent() && nil != fn.Pkg {
+			names = append(names, fn.String())
+			byName[fn.String()] = fn
 		}
 	}
-	sort.Strings(out)
-	fmt.Println("package main\n\n// reffuncs.go: the top-level functions of the reference tree (/repo at the\n// time the rules were confirmed).  A module function not listed here is a\n// helper: its static calls are folded into the callers before analysis.\n// Regenerate with `bin/crscheck -dump-reffuncs > checker/reffuncs.go` after\n// confirming the rules on a new reference tree.\n\nvar refFuncs = map[string]bool{")
-	for _, l := range out {
-		fmt.Printf("\t%q: true,\n", l)
+	sort.Strings(names)
+	for _, n := range names {
+		fn := byName[n]
+		fmt.Printf("\t%q: {%q, %q, %q, []string{", n, fn.Pkg.Pkg.Path(), recvTypeName(fn), sigString(fn))
+		for i := 0; i < fn.Signature.Params().Len(); i++ {
+			if i > 0 {
+				fmt.Print(", ")
+			}
+			fmt.Printf("%q", fn.Signature.Params().At(i).Name())
+		}
+		fmt.Print("}, []string{")
+		for i, m := range funcMarks(fn) {
+			if i > 0 {
+				fmt.Print(", ")
+			}
+			fmt.Printf("%q", m)
+		}
+		fmt.Println("}},")
+	}
+	fmt.Println("}\n\n// refFields: the fields (name, tab, type) of the module's struct types.\nvar refFields = map[string][]string{")
+	q := func(pk *types.Package) string { return pk.Path() }
+	var tnames []string
+	fields := map[string][]string{}
+	for _, pk := range p.Pkgs {
+		sc := pk.Types.Scope()
+		for _, n := range sc.Names() {
+			tn, ok := sc.Lookup(n).(*types.TypeName)
+			if !ok {
+				continue
+			}
+			st, ok := tn.Type().Underlying().(*types.Struct)
+			if !ok {
+				continue
+			}
+			key := pk.PkgPath + "." + n
+			tnames = append(tnames, key)
+			for i := 0; i < st.NumFields(); i++ {
+				fields[key] = append(fields[key], st.Field(i).Name()+"\t"+types.TypeString(st.Field(i).Type(), q))
+			}
+		}
+	}
+	sort.Strings(tnames)
+	for _, k := range tnames {
+		fmt.Printf("\t%q: {", k)
+		for i, f := range fields[k] {
+			if i > 0 {
+				fmt.Print(", ")
+			}
+			fmt.Printf("%q", f)
+		}
+		fmt.Println("},")
 	}
 	fmt.Println("}")
 	return 0
